@@ -16,6 +16,23 @@ func init() { register("C18", "other", checkC18) }
 // from the comparisons against constants in fs.
 func pathInterval(fs []Cmp, match func(ssa.Value) bool) (lo, hi int64, n int) {
 	lo, hi = math.MinInt64, math.MaxInt64
+	var excluded []int64
+	defer func() {
+		// x != k at an end of the interval shrinks it (x >= 0 && x != 0 is x >= 1)
+		for changed := true; changed; {
+			changed = false
+			for _, k := range excluded {
+				if k == lo && lo < hi {
+					lo++
+					changed = true
+				}
+				if k == hi && lo < hi {
+					hi--
+					changed = true
+				}
+			}
+		}
+	}()
 	for _, f := range fs {
 		x, y, op := f.X, f.Y, f.Op
 		if _, isK := constInt(x); isK {
@@ -50,6 +67,9 @@ func pathInterval(fs []Cmp, match func(ssa.Value) bool) (lo, hi int64, n int) {
 			if k < hi {
 				hi = k
 			}
+		case token.NEQ:
+			excluded = append(excluded, k)
+			n--
 		}
 	}
 	return
